@@ -1226,6 +1226,137 @@ def r5_identity_shortcut(ctx, rid):
 
 
 
+def _construct_params(ctx, g) -> set:
+    """Parameters of a buffer/cascade building function that shape what is built (names, equations, variable definitions,
+    look-ups of the source variable): all parameters except those whose every use - through plain aliases and tuple unpacking -
+    sits inside the index of a `self.edges[...]` subscript (they only say which edge is re-pointed afterwards)."""
+    out = set()
+    for p_ in g.params:
+        if p_ == g.self_name:
+            continue
+        names = {p_}
+        changed = True
+        while changed:
+            changed = False
+            for st in walk_shallow(g.node):
+                if isinstance(st, ast.Assign) and isinstance(st.value, ast.Name) and st.value.id in names:
+                    for t in st.targets:
+                        for x in ast.walk(t):
+                            if isinstance(x, ast.Name) and x.id not in names:
+                                names.add(x.id)
+                                changed = True
+        only_edge_index = True
+        for x in walk_shallow(g.node):
+            if isinstance(x, ast.Name) and isinstance(x.ctx, ast.Load) and x.id in names:
+                if isinstance(parent(x), ast.Assign) and parent(x).value is x:
+                    continue            # the alias definition itself
+                a_, inside = x, False
+                while a_ is not None and not isinstance(a_, ast.stmt):
+                    pa = parent(a_)
+                    if isinstance(pa, ast.Subscript) and pa.slice is a_ or (isinstance(pa, ast.Subscript) and isinstance(pa.slice, ast.Tuple) and False):
+                        if isinstance(pa.value, ast.Attribute) and pa.value.attr == "edges":
+                            inside = True
+                    a_ = pa
+                if not inside:
+                    only_edge_index = False
+        if not only_edge_index:
+            out.add(p_)
+    return out
+
+
+def r7_kernel_registry_key(ctx, rid):
+    """A registry that lets a later edge re-use a delay buffer / ODE cascade built for an earlier one (`if key not in M:
+    M[key] = self._add_matrix_delay(...)`, then `edge['source_var'] = M[key]`) may hand out an existing cascade only to an edge
+    that would have built the very same one: the key must determine every argument of the building call that shapes the
+    construct (source node / operator / variable, delay, spread) and that can differ between two entries filed during the
+    registry's lifetime.  Decided on every call of a cascade-building function whose result is stored under a key in a local
+    dict; an argument is 'determined' if it is computed only from names that occur in the key (or from the registry itself)."""
+    builders = {}
+    for ch in chain_siblings(ctx):
+        builders[ch.f.qual] = ch.f
+    n_reg = 0
+    for b in builders.values():
+        relevant = _construct_params(ctx, b)
+        for g, call in ctx.cg.call_sites_of(b):
+            pc = parent(call)
+            if not (isinstance(pc, ast.Assign) and pc.value is call and len(pc.targets) == 1 and isinstance(pc.targets[0], ast.Subscript)
+                    and isinstance(pc.targets[0].value, ast.Name)):
+                continue
+            M = pc.targets[0].value
+            if U.is_param(ctx, g, M) or not ctx.rd(g).is_local(M.id):
+                raise AnalysisError(f"{rid}: {g.qual}: the result of {b.qualname} is filed in `{M.id}`, which is not a local registry (unrecognised form)")
+            n_reg += 1
+            key = pc.targets[0].slice
+            if isinstance(key, ast.Name):
+                kv = U.single_value(ctx, g, key)
+                if kv is None:
+                    raise AnalysisError(f"{rid}: {g.qual}: registry key `{key.id}` has no single definition")
+                key = kv
+            # lifetime of the registry: from its creation; what is bound in loops nested inside the creating block varies
+            creations = [d for d in ctx.rd(g).defs_reaching(M) if isinstance(d, ast.stmt)]
+            if len(creations) != 1:
+                raise AnalysisError(f"{rid}: {g.qual}: the registry `{M.id}` is not created at exactly one place (unrecognised form)")
+            created = creations[0]
+            life = U.loop_of(created)          # None: the whole call of g
+
+            def varies(x: ast.Name) -> bool:
+                for d in ctx.rd(g).defs_reaching(x):
+                    if not isinstance(d, ast.stmt):
+                        continue
+                    if d is life:
+                        continue                # the variable of the loop that (re-)creates the registry
+                    lp = d if isinstance(d, (ast.For, ast.While)) else U.loop_of(d)
+                    while lp is not None and lp is not life:
+                        if life is None or contains(life, lp):
+                            return True
+                        lp = U.loop_of(lp)
+                return False
+
+            determined = {x.id for x in ast.walk(key) if isinstance(x, ast.Name)} | {M.id}
+
+            def is_determined(e, depth=0) -> bool:
+                for x in ast.walk(e):
+                    if not (isinstance(x, ast.Name) and isinstance(x.ctx, ast.Load)):
+                        continue
+                    if x.id in determined or U._comp_binding(x) is not None or not ctx.rd(g).is_local(x.id):
+                        continue
+                    if not varies(x):
+                        continue
+                    if depth >= 4:
+                        return False
+                    for d in ctx.rd(g).defs_reaching(x):
+                        if isinstance(d, (ast.For, ast.While)):
+                            return False
+                        if isinstance(d, ast.Assign):
+                            if not is_determined(d.value, depth + 1):
+                                return False
+                        elif isinstance(d, ast.stmt):
+                            return False
+                return True
+
+            binding = U.bind_args(b, call)
+            facts = {"registry": M.id, "key": ast.unparse(key), "call": norm(call, 120), "construct_parameters": sorted(relevant)}
+            missing = []
+            for p_, a_ in binding.items():
+                if p_ in relevant and not is_determined(a_):
+                    missing.append((p_, a_))
+            st = pc
+            label = f"re-use registry `{M.id}` of {b.qualname}"
+            if missing:
+                ctx.violation(rid, g, st, f"`{M.id}` hands the construct built by `{norm(call, 60)}` to every later edge with the same key "
+                                          f"`{ast.unparse(key)}`, but the key does not determine " +
+                              ", ".join(f"`{p_}={ast.unparse(a_)}`" for p_, a_ in missing) +
+                              f", which differs between entries filed in one `{M.id}` (it is re-bound in a loop inside the registry's lifetime): an "
+                                          f"edge whose source differs in it is pointed at the delayed copy of another source", facts, label=label)
+            else:
+                ctx.ok(rid, g, st, f"every argument that shapes the construct and varies during the registry's lifetime is determined by the key "
+                                   f"`{ast.unparse(key)}`", facts, label=label)
+    if n_reg == 0:
+        f0 = chain_siblings(ctx)[0].f
+        ctx.ok(rid, f0, f0.node, "no registry re-uses a delay cascade / buffer for several edges (each call builds its own)",
+               label="re-use registry of delay constructs: none", nontrivial=False)
+
+
 def r_perm_identity(ctx, rid):
     """Index-dropping shortcuts must be guarded by an exact identity test of the index list (shared lint, see _identity_lint)."""
     from ._identity_lint import permutation_test_as_identity
@@ -1239,4 +1370,5 @@ RULES = [
     ("C11-R4", r4_delays_stay_continuous, 4),     # delay flag, spread flag, >= 1 forwarding, continuous arm (6 today)
     ("C11-R5", r5_identity_shortcut, 1),
     ("C11-R6", r_perm_identity, 1),
+    ("C11-R7", r7_kernel_registry_key, 1),
 ]
